@@ -1,10 +1,10 @@
 """C14 — all directed-graph containers present the same graph (container/)."""
 
-# Which definitions the model driver runs: "current" = the code as it is (DirectionBoth defect F2
-# reproduced), "fixed" = hooks/C14-fix.patch applied. Flip to "fixed" in the same commit that lands the
-# fix in /repo and moves the four F2 entries of known_findings.json to status "fixed".
+# Which definitions the model driver runs: "fixed" = the code as it is (F2 repaired in /repo by 789c790, the live
+# definitions of the Lean statements), "old" = the pre-repair definitions (DirectionBoth defect F2 reproduced; only
+# for replaying the old shape against a scratch worktree that reverts the fix).
 import os
-MODEL_MODE = os.environ.get("VERIF_C14_MODE", "fixed")   # env override only for trying the fix in a scratch worktree
+MODEL_MODE = os.environ.get("VERIF_C14_MODE", "fixed")
 
 P = "Dawgs.C14.Props."
 THEOREMS = {
@@ -12,12 +12,9 @@ THEOREMS = {
         "adjmap_adj_eq",
         "csr_offsets_inv",
         "csr_adj_eq",
-        "ts_adj_eq_partial",
-        "ts_adj_both_refuted",
-        "ts_adj_eq_fixed",
-        "proj_adj_eq_partial",
-        "proj_adj_both_refuted",
-        "proj_adj_eq_fixed",
+        "ts_adj_eq",
+        "proj_adj_eq",
+        "proj_tombstone_partial",
         "proj_tombstone_refuted",
         "numNodes_eq",
         "reach_fuel_sufficient",
@@ -25,9 +22,24 @@ THEOREMS = {
         "bfsTree_dist_eq",
         "normalize_iso",
         "segment_roundtrip",
-        "c14_full_refuted",
-        "c14_fixed",
-        "c14_partial",
+        "tsbfs_leaves_eq",
+        "tsdfs_leaves_eq",
+        "stateless_bfs_dist_eq",
+        "numEdges_eq",
+        "degrees_eq",
+        "dimensions_eq",
+        "adjmap_numEdges_refuted",
+        "ts_numEdges_tombstone_refuted",
+        "toSegment_panics",
+        "toSegment_partial",
+        "c14",
+        # the code before 789c790 (F2): refutations and what held then
+        "ts_adj_both_refuted_old",
+        "proj_adj_both_refuted_old",
+        "ts_adj_eq_old_partial",
+        "proj_adj_eq_old_partial",
+        "c14_refuted_old",
+        "c14_old_partial",
     ]],
 }
 
@@ -39,6 +51,8 @@ CLASS_KEYS = {
     "proj-ignores-tombstone": "C14:triplestoreProjection.EachAdjacentEdge:ignores-origin-DeleteEdge",
     "readeach-lost-all-segments": "C14:BFSTreeFile.ReadEach:scans-raw-file-not-gzip-stream",
     "toseg-index-panic": "C14:SerializedSegment.ToSegment:Edges-index-minus-one-panic",
+    "am-numedges-returns-node-count": "C14:adjacencyMapDigraph.NumEdges:returns-node-count",
+    "ts-numedges-ignores-tombstone": "C14:triplestore.NumEdges:ignores-DeleteEdge",
 }
 
 
@@ -48,7 +62,7 @@ def finding_key(suite, ops, line, msg):
     if cls in CLASS_KEYS:
         return CLASS_KEYS[cls]
     op = ops[line].split() if line < len(ops) else []
-    site = ".".join(op[:3]) if op and op[0] in ("adj", "adj1", "reach", "reach1", "bfs", "bfs1", "norm", "nodes", "tsbfs", "tsdfs") else (op[0] if op else "?")
+    site = ".".join(op[:3]) if op and op[0] in ("adj", "adj1", "reach", "reach1", "bfs", "bfs1", "norm", "nodes", "tsbfs", "tsdfs", "tssl", "dims", "numedges") else (op[0] if op else "?")
     return "C14:%s:%s" % (site, cls)
 
 
@@ -105,8 +119,9 @@ SPEC = {
     "lean_modules": ["Dawgs.Props.C14"],
     "theorems_by_module": THEOREMS,
     "gate_modules": ["Dawgs.Model.C14", "Dawgs.Spec.C14", "Dawgs.Proofs.C14", "Dawgs.Proofs.C14TS", "Dawgs.Proofs.C14Csr", "Dawgs.Proofs.C14Reach",
-                     "Dawgs.Proofs.C14Bfs", "Dawgs.Proofs.C14Norm", "Dawgs.Proofs.C14Seg", "Dawgs.Proofs.C14Glue", "Dawgs.Props.C14"],
-    "suites": [{"name": "c14", "model_suite": "c14" if MODEL_MODE == "current" else "c14fixed", "monitor_suite": "c14mon",
+                     "Dawgs.Proofs.C14Bfs", "Dawgs.Proofs.C14Norm", "Dawgs.Proofs.C14Seg", "Dawgs.Proofs.C14Trav", "Dawgs.Proofs.C14TravInst", "Dawgs.Proofs.C14Edges", "Dawgs.Proofs.C14Dims",
+                     "Dawgs.Proofs.C14Glue", "Dawgs.Props.C14"],
+    "suites": [{"name": "c14", "model_suite": "c14" if MODEL_MODE == "fixed" else "c14old", "monitor_suite": "c14mon",
                 "keep_prefix": 2, "shrink_budget": 60, "thorough_seeds": 1}],
     "nontrivial": nontrivial,
     "finding_key": finding_key,
@@ -124,7 +139,7 @@ SPEC = {
         "branch.proj.deleted_nodes", "branch.proj.deleted_edges", "branch.proj.nested", "branch.ts.delete_edge",
         "branch.reach.start_on_cycle", "branch.reach.empty", "branch.bfs.distance_ge3", "branch.normalize.am", "branch.normalize.csr",
         "branch.seg.single_node", "branch.tsbfs.both", "branch.tsdfs.in", "branch.traversal.depth_exceeded",
-        "branch.traversal.unbounded_depth", "branch.zone.readeach", "branch.adj1.csr", "branch.toseg",
+        "branch.traversal.unbounded_depth", "branch.zone.readeach", "branch.adj1.csr", "branch.toseg", "branch.tssl.both", "branch.tssl.in", "branch.numedges.proj", "branch.dims", "gen.shape.proj_deletes_non_node",
     ],
     "trusted_base": [
         "RoaringBitmap / cardinality.Bitmap64 native Add/Or/Contains/Each (modelled as ascending lists), Go maps, gammazero/deque, encoding/binary, compress/gzip",
@@ -133,7 +148,10 @@ SPEC = {
     "assumptions": [
         "ids are < 2^64 (the Go code cannot represent others); the Lean theorems hold for all naturals",
         "EachAdjacentNode multiplicity is not part of the property: answers are compared as sets by the monitor and as exact callback sequences by the model tie",
-        "TSBFS/TSDFS: modelled and tied, judged by the monitor against the naive maximal-walk enumeration; no Lean theorem (covered by tie + monitor only)",
+        "TSDFS/TSBFS/TSStatelessBFS theorems need `Terminates` (maxDepth > 0, or a rank function certifying the filtered graph acyclic); an admitted cycle with maxDepth <= 0 is the documented non-termination of the real loops and is never generated",
+        "TSStatelessBFS weights: small integral float64 values in the tie (products exact), naturals in the model",
+        "Dimensions / Degrees: proved equal across adjacency map, store and (out/in) CSR (degrees_eq, dimensions_eq); for CSR under `both` and for projections the callback count has multiplicity and is only tied + judged by the monitor within [distinct neighbours, incident edges]",
+        "a triple store carrying DeleteEdge tombstones: the store's own adjacency is proved (ts_adj_eq); its EachEdge/EachAdjacentEdge/NumEdges, its projections and traversals ignore the tombstones (known findings, stated precisely by proj_tombstone_partial, numEdges_eq, tsContainers)",
         "Reach/BFSTree theorems are stated for the queue loops with fuel NumNodes+1 (proved sufficient, reach_fuel_sufficient); the Go loops are unbounded",
         "BFSTreeFile.ReadEach is exercised only on files below one 4096-byte read buffer, where the current code deterministically yields no record",
     ],
@@ -167,8 +185,8 @@ MANIFEST = {
     "text": "Lean theorems over ALL build histories (arbitrary ids, self loops, parallel/antiparallel edges, isolated nodes): the adjacency map, the CSR "
             "digraph (offset invariant proved by induction over the builder and fill loops) and — for outbound/inbound — the triple store and every "
             "deleted-node/deleted-edge projection present exactly the edge list's adjacency sets and node count; Reach equals >=1-step reachability with "
-            "fuel |nodes|+1 proved sufficient; BFSTree reports every reachable node once with the length of a SHORTEST walk; Normalize is an isomorphism; segment marshalling round-trips. For `both` the current triple store and "
-            "projection are REFUTED by witness (known findings) and proved for the repaired definitions. The models are transcriptions of container/*.go "
+            "fuel |nodes|+1 proved sufficient; BFSTree reports every reachable node once with the length of a SHORTEST walk; Normalize is an isomorphism; segment marshalling round-trips; TSDFS/TSBFS/TSStatelessBFS hand their handler exactly the maximal filter-admitted walks (multiset equality with the naive enumeration, termination with an explicit fuel bound under maxDepth>0 or an acyclicity certificate); NumEdges of CSR / store / every projection equals the edge-list count. `C14_full` is the statement about the code as it is (F2 repaired by 789c790) and is proved (`c14`); the pre-repair "
+            "definitions are kept only for the `_old` refutations. The models are transcriptions of container/*.go "
             "compared with the real code on exhaustive small graphs and random multigraphs every run, and the real answers are judged by the spec monitor.",
-    "note": "TSBFS/TSDFS and BFSTreeFile: tie + monitor only (no Lean theorem). Trusted: Lean kernel, roaring bitmaps, Go maps, deque, gzip.",
+    "note": "BFSTreeFile (gzip file round trip): tie + monitor only (no Lean theorem). Trusted: Lean kernel, roaring bitmaps, Go maps, deque, gzip.",
 }
